@@ -1,10 +1,11 @@
 #!/bin/sh
+# usage: tools_seeded_all.sh [glob]   (default: all)
 # re-run, for every stored seeded change, the checks recorded as catching it (scratch worktree, removed
 # afterwards); the failing inputs each check reports are collected into corpus/<Cxx>/<change>.json, which
 # every later run of that check replays first
 cd "$(dirname "$0")" || exit 2
 WT=/tmp/seeded_wt_$$
-for d in seeded/*/; do
+for d in seeded/${1:-*}/; do
   n=$(basename $d)
   git -C /repo worktree add -q --detach $WT HEAD || exit 2
   if ! git -C $WT apply $PWD/$d/patch.diff 2>/dev/null; then echo "$n: PATCH DOES NOT APPLY"; git -C /repo worktree remove --force $WT; continue; fi
